@@ -97,7 +97,7 @@ def method_specs(tier, rnd):
             continue
         if s['asy'] != 'sync' and ('generic' in s['params'] or 'impl' in s['params']):
             continue
-        if s['unmock'] in ('path', 'args') and ('impl' in s['params'] or 'generic' in s['params'] or 'impossible' in s['params'] or s['recv'] in ('rc', 'arc', 'val', 'pin')):
+        if s['unmock'] in ('path', 'args') and ('impl' in s['params'] or 'generic' in s['params'] or 'impossible' in s['params'] or s['recv'] in ('rc', 'arc', 'val') or (s['recv'] == 'pin' and s['unmock'] == 'args')):
             s = dict(s, unmock='none')
         if s['unmock'] in ('path', 'args') and (RETURNS[s['ret']][1] is not None or s['asy'] == 'rpit'):
             s = dict(s, unmock='none')
